@@ -156,6 +156,10 @@ def check_case(case):
     except RecursionError:
         raise Violation("construction recursed without end: a constructor produced a node that contains itself", {"kind": "cycle"})
     except Exception as ex:
+        if isinstance(ex, ValueError) and "math domain error" in str(ex):
+            # constant folding of ln/sqrt/acos/... of a *real* literal outside the real domain (ln(0.5 + (-2j)**2) is
+            # ln(-3.5) once the literal has collapsed to a real): undefined as a real function, not generated on purpose
+            raise Discard("undefined: real literal outside the domain of a math function")
         if isinstance(ex, ValueError) and "Not expecting free indices" in str(ex):
             # the explicit refusal of the operators that are defined for index-free operands only
             raise Discard("refused: free indices in an index-free operator")
